@@ -29,6 +29,9 @@ use crate::utils::{
 use anyhow::{anyhow, bail, Result};
 use lazy_static::lazy_static;
 use lru::LruCache;
+#[cfg(melda_verif_sched)]
+use crate::verif_sched::par::*;
+#[cfg(not(melda_verif_sched))]
 use rayon::prelude::*;
 use regex::Regex;
 use serde_json::{Map, Value};
@@ -40,6 +43,9 @@ use std::collections::{BTreeMap, BTreeSet, VecDeque};
 use std::collections::{BTreeMap, BTreeSet, HashMap, HashSet, VecDeque};
 use std::fmt;
 use std::num::NonZeroUsize;
+#[cfg(melda_verif_sched)]
+use crate::verif_sched::{Arc, Mutex, RwLock};
+#[cfg(not(melda_verif_sched))]
 use std::sync::{Arc, Mutex, RwLock};
 
 /// Change triple (used for storing delta changesets)
@@ -786,6 +792,9 @@ impl Melda {
                 .expect("cannot_automatically_resolve_array_descriptor_conflict");
         }
         // Commit data packs
+        #[cfg(melda_verif_sched)]
+        let mut data = self.data.write().expect("cannot_acquire_data_for_writing");
+        #[cfg(not(melda_verif_sched))]
         let mut data: std::sync::RwLockWriteGuard<'_, DataStorage> =
             self.data.write().expect("cannot_acquire_data_for_writing");
         let packid = data.pack()?;
@@ -1559,6 +1568,9 @@ impl Melda {
                     }
                 }
             });
+            #[cfg(melda_verif_sched)]
+            let mut c_r = c.lock().unwrap();
+            #[cfg(not(melda_verif_sched))]
             let mut c_r: std::sync::MutexGuard<'_, HashMap<String, Map<String, Value>>> =
                 c.lock().unwrap();
             let root = c_r.get(start).expect("root_object_not_found");
